@@ -23,6 +23,7 @@ macro("LIST_SHAPE", ["l"],
       "forall(lambda i: implies(0 <= i and i < len(l.children_shard_lists), CHILD_PLACED(l.relative_path_self, l.children_shard_lists[i])))"
       " and forall(lambda i, j: implies(0 <= i and i < j and j < len(l.children_shard_lists),"
       "       UP(l.children_shard_lists[i]) != UP(l.children_shard_lists[j])))")
+macro("LISTFILE", ["root", "rel"], "dstate(PJOIN(root, rel)) == 2 and PNAME(rel) == 'shards_list.json' and SAFE(rel)")
 macro("DOC_OK", ["root", "rel", "d"],
       "VALID_ShardsList(d) and LEX(d) and LISTED_COMPLETE(root, d) and d.relative_path_self == rel and LIST_SHAPE(d)")
 macro("DISK_OK", ["root"],
@@ -131,6 +132,15 @@ contract(MSM, "ShardsList.load_or_create", props=["C04", "C08", "C17", "C06", "C
     raises={"ValueError": ["dstate(PJOIN(dataset_root_path, relative_path_self)) == 2"]})
 
 # ---- Shard -------------------------------------------------------------------------
+macro("FP", ["s"], "s.shard_info.file_infos[0].file_path")
+# the shard file lives in <split>/<relative path of the filler>/
+macro("SHARD_IN", ["s", "split", "rel"], "FP(s) == PJOIN(PJOIN(split, rel), PNAME(FP(s)))")
+macro("PLAIN", ["g"], "PART(g, 0) == g and NPARTS(g) == 1 and not ISABS(g) and not HASDD(g)")
+# what a writing step in split `split` leaves alone: every list file outside that split's directory
+macro("OTHER_SPLITS_KEPT", ["root", "split"],
+      "forall(lambda rel: implies(NPARTS(rel) >= 2 and not ISABS(rel) and PART(rel, 0) != split,"
+      "   cert(root, rel) == old(cert(root, rel)) and dstate(PJOIN(root, rel)) == old(dstate(PJOIN(root, rel)))"
+      "   and disk_read(PJOIN(root, rel)) == old(disk_read(PJOIN(root, rel)))), rel='U')")
 macro("SHARD_PATH", ["s"], "PJOIN(s._dataset_path, s.shard_info.file_infos[0].file_path)")
 macro("SHARD_OK", ["s"], "len(s.shard_info.file_infos) >= 1 and VALID_ShardInfo(s.shard_info)"
       " and PNAME(s.shard_info.file_infos[0].file_path) != 'shards_list.json'"
@@ -175,6 +185,9 @@ contract(MS_, "Shard.close", props=["C10", "C04", "C16", "C06", "C05"],
         # C06: the file is complete (writer closed) before it is hashed and recorded
         ("C06", "dstate(SHARD_PATH(self)) == 2"),
         ("C16", "IS_DIGESTS(result.file_infos[0].hash_checksums, self.dataset_structure.hash_checksum_algorithms, disk_read(SHARD_PATH(self)))"),
+        # C04: completing a shard file changes no list file: the certified part of the tree stays as it is
+        ("C04", "hide SC_GINV: implies(old(GINV(self._dataset_path)) and old(DISK_OK(self._dataset_path)), GINV(self._dataset_path))"),
+        (["C04", "C06"], "hide SC_DISK: implies(old(DISK_OK(self._dataset_path)), DISK_OK(self._dataset_path))"),
     ],
     raises={"ValueError": ["old(self._shard_writer) is None"]})
 
@@ -185,6 +198,8 @@ contract(MS_, "Shard.close", props=["C10", "C04", "C16", "C06", "C05"],
 macro("LIST_OK", ["c", "s"],
       "VALID_ShardsList(c._shards_lists[s]) and LEX(c._shards_lists[s]) and LISTED_COMPLETE(c._dataset_root_path, c._shards_lists[s])"
       " and LIST_SHAPE(c._shards_lists[s])"
+      # the in-memory list is not one of the (ghost) documents parsed from disk
+      " and forall(lambda rel: implies(LISTFILE(c._dataset_root_path, rel), DOC_AT(c._dataset_root_path, rel) is not c._shards_lists[s]), rel='U')"
       " and c._shards_lists[s].relative_path_self == PJOIN(PJOIN(s, c._relative_path_from_split), 'shards_list.json')")
 macro("CTX_LISTS_OK", ["c"],
       "forall(lambda s: implies(s in c._shards_lists, LIST_OK(c, s)), s='U')"
@@ -192,6 +207,13 @@ macro("CTX_LISTS_OK", ["c"],
 
 contract(MF, CTX + ".close_shard", props=["C10", "C04", "C06", "C08", "C18", "C16"],
     params={"shard": "ref:Shard", "split": "U"},
+    exit_lemmas=[
+        # both files written here lie in the directory of `split`
+        ("C04", "PART(PJOIN(PJOIN(split, self._relative_path_from_split), 'shards_list.json'), 0) == split and PART(FP(shard), 0) == split and NPARTS(PJOIN(PJOIN(split, self._relative_path_from_split), 'shards_list.json')) >= 2"),
+        ("C04", "forall(lambda rel: implies(NPARTS(rel) >= 2 and not ISABS(rel) and PART(rel, 0) != split"
+                "   and axinst(path_inst(PJOIN(PJOIN(split, self._relative_path_from_split), 'shards_list.json'), NPARTS(rel) - 1, 0, rel, 0) and path_inst(rel, NPARTS(rel) - 1, 0, rel, 0)),"
+                "   rel != PJOIN(PJOIN(split, self._relative_path_from_split), 'shards_list.json') and rel != FP(shard) and not ANCREL(rel, PJOIN(PJOIN(split, self._relative_path_from_split), 'shards_list.json'))), rel='U')"),
+    ],
     requires=[
         ("C10", "shard.shard_info.number_of_examples >= 1"),     # never close an empty shard
         "shard._shard_writer is not None and not shard._shard_writer.closed",
@@ -200,6 +222,7 @@ contract(MF, CTX + ".close_shard", props=["C10", "C04", "C06", "C08", "C18", "C1
         "implies(split in self._shards_lists, LIST_OK(self, split))",
         "SAFE(self._relative_path_from_split)", "SAFE(split)",
         "DISK_OK(self._dataset_root_path)",
+        "PLAIN(split) and SHARD_IN(shard, split, self._relative_path_from_split)",
     ],
     modifies=["Shard._shard_writer@shard", "Writer.closed@shard._shard_writer",
               "FileInfo.hash_checksums@shard.shard_info.file_infos[0]",
@@ -232,8 +255,18 @@ contract(MF, CTX + ".close_shard", props=["C10", "C04", "C06", "C08", "C18", "C1
                 "  and self._shards_lists[split].number_of_examples == old(self._shards_lists[split].number_of_examples) + shard.shard_info.number_of_examples)"),
         ("C04", "self._shards_lists[split].shard_files[len(self._shards_lists[split].shard_files) - 1] is shard.shard_info"),
         ("C06", "dstate(SHARD_PATH(shard)) == 2"),
+        # an info that was in no list document before and is not in this split's list is in no list document now
+        # (stated once here so that callers need not redo the case analysis over the files written)
+        ("C04", "forall(lambda y: implies(old(NOT_ON_DISK(self._dataset_root_path, si_ref(y)))"
+                "   and si_ref(y) is not shard.shard_info and not isdisk(si_ref(y))"
+                "   and implies(old(split in self._shards_lists), old(forall(lambda i: implies(0 <= i and i < len(self._shards_lists[split].shard_files),"
+                "          self._shards_lists[split].shard_files[i] is not si_ref(y))))),"
+                "  NOT_ON_DISK(self._dataset_root_path, si_ref(y))))"),
         # other splits' lists untouched
         "forall(lambda t: implies(t != split, (t in self._shards_lists) == old(t in self._shards_lists)), t='U')",
+        # C04: the certified part of the tree stays an exact tree; only this split's directory is touched
+        ("C04", "reveal SC_GINV,SC_DISK,GINVKEEP: hide CS_GINV: implies(old(GINV(self._dataset_root_path)) and old(DISK_OK(self._dataset_root_path)), GINV(self._dataset_root_path))"),
+        ("C04", "reveal CERTDEF: hide CS_FR: OTHER_SPLITS_KEPT(self._dataset_root_path, split)"),
     ],
     # an existing list file of this directory that cannot be loaded (corrupt / escaping) is an error
     raises={"ValueError": ["not old(split in self._shards_lists)", "shard._shard_writer is None"]})
@@ -345,7 +378,6 @@ macro("INFO_EXACT", ["root", "algs", "info"],
 # in the directories above it (their entry for it is stale now) and certifies the written
 # list iff all ITS entries are good.  With LIST_SHAPE (children one level below) the
 # certified lists reachable from a certified root form an exact tree (A-LEMMA-TREE).
-macro("LISTFILE", ["root", "rel"], "dstate(PJOIN(root, rel)) == 2 and PNAME(rel) == 'shards_list.json' and SAFE(rel)")
 macro("ANCREL", ["rel", "l"], "PNAME(rel) == 'shards_list.json' and NPARTS(rel) < NPARTS(l) and PPREFIX(l, NPARTS(rel) - 1) == DIROF(rel)")
 macro("ENTRY_GOOD", ["root", "c"], "INFO_EXACT(root, galgs(), c) and cert(root, UP(c))")
 macro("GINV", ["root"],
